@@ -55,12 +55,18 @@ pub struct AcceptCfg {
     /// Limit: connections held open; which one is released when
     pub limit: Option<(usize, Us)>,
     pub end: Us,
+    /// every client socket starts numbering its connections at this id, so different clients (and
+    /// some raw SYNs) use the same connection ids from different addresses
+    pub client_id_base: Option<u16>,
+    /// Abandon: a connect of client 0 issued just before the hanging ones, still waiting for its
+    /// accept when those are dropped; it has to succeed
+    pub early_connect: Option<Us>,
 }
 
 impl AcceptCfg {
     pub fn describe(&self) -> String {
         format!(
-            "{:?} listener[{}] clients={} connects={:?} raw_syns={} {:?} accept_start={}us acceptors={} pause={:?} cancelled_accepts={:?} instant_abandons={:?} hanging_connects={:?} limit={:?} end={}us",
+            "{:?} listener[{}] clients={} connects={:?} raw_syns={} {:?} accept_start={}us acceptors={} pause={:?} cancelled_accepts={:?} instant_abandons={:?} hanging_connects={:?} limit={:?} end={}us id_base={:?} early_connect={:?}",
             self.shape,
             self.listener.describe(),
             self.n_clients,
@@ -74,7 +80,9 @@ impl AcceptCfg {
             self.instant_abandons,
             self.hanging_connects,
             self.limit,
-            self.end
+            self.end,
+            self.client_id_base,
+            self.early_connect
         )
     }
 }
@@ -241,7 +249,11 @@ pub async fn accept_scenario(world: Arc<World>, cfg: AcceptCfg, case_seed: u64) 
     world.log.keep_tables.store(true, Ordering::Relaxed);
     let shared: Shared = Arc::new(Mutex::new(AcceptOutcome::default()));
     let listener = world.socket(listener_addr(), &cfg.listener);
-    let clients: Vec<_> = (0..cfg.n_clients).map(|i| world.socket(client_addr(i), &SockCfg::default())).collect();
+    let mut client_cfg = SockCfg::default();
+    if let Some(b) = cfg.client_id_base {
+        client_cfg.forced_random = vec![b];
+    }
+    let clients: Vec<_> = (0..cfg.n_clients).map(|i| world.socket(client_addr(i), &client_cfg)).collect();
     for (_, port, _, _, _) in &cfg.raw_syns {
         world.net.register(raw_addr(*port));
     }
@@ -400,7 +412,7 @@ pub async fn accept_scenario(world: Arc<World>, cfg: AcceptCfg, case_seed: u64) 
         // Backlog / Limit decide in the monitor (queue position, slot)
         let must = match cfg.shape {
             Shape::Order => true,
-            Shape::Abandon => at >= abandon_over,
+            Shape::Abandon => at >= abandon_over || (cfg.early_connect == Some(at) && *client == 0),
             _ => false,
         };
         let hold = if keep_open { Some(hold_conn.clone()) } else { None };
@@ -481,11 +493,23 @@ pub fn generate(case_seed: u64) -> (AcceptCfg, FaultPlan, String) {
         hanging_connects: None,
         limit: None,
         end: 6 * SEC,
+        client_id_base: None,
+        early_connect: None,
     };
+    let mut aux = Prng::new(mix2(case_seed, 0x5A3E_1D));
+    let id_base: Option<u16> = if aux.chance(0.35) { Some(aux.next_u64() as u16) } else { None };
+    cfg.client_id_base = id_base;
     let mut raw_port = 13_000u16;
+    let mut aux2 = Prng::new(mix2(case_seed, 0x5A3E_2D));
     let mut next_raw = |r: &mut Prng, at: Us, copies: u8| {
         raw_port += 1;
-        (at, raw_port, r.next_u64() as u16, r.next_u64() as u16, copies)
+        let (id, seq) = (r.next_u64() as u16, r.next_u64() as u16);
+        // same connection id as the clients' first connects, from another address
+        let id = match id_base {
+            Some(b) if aux2.chance(0.6) => b.wrapping_add(2 * aux2.below(3) as u16),
+            _ => id,
+        };
+        (at, raw_port, id, seq, copies)
     };
     match shape {
         Shape::Order => {
@@ -543,6 +567,18 @@ pub fn generate(case_seed: u64) -> (AcceptCfg, FaultPlan, String) {
             }
             if r.chance(0.5) {
                 cfg.instant_abandons = Some((r.range(0, 600) * MS, r.range(1, 40) as usize));
+            }
+            if let Some((hat, _, _)) = cfg.hanging_connects {
+                // (not next to accept calls that are aborted around the same time: a request handed
+                // to a call that is being cancelled goes down with it, which is the application's doing)
+                if cfg.cancelled_accepts.is_none() && aux.chance(0.6) {
+                    cfg.accept_start = 300 * MS;
+                }
+                if hat >= 2 * MS && cfg.accept_start >= 300 * MS && cfg.cancelled_accepts.is_none() && aux.chance(0.8) {
+                    let at = hat - aux.range(1, (hat / MS).min(10)) * MS;
+                    cfg.early_connect = Some(at);
+                    connects.push((at, 0));
+                }
             }
             // ordinary connects afterwards, including up to 4 from the client whose connects hung
             for _ in 0..r.range(1, 4) {
